@@ -15,6 +15,7 @@ ops (fields separated by `,`, list elements by `+`):
   aremove,$a,<int>+..   asub,$a,<int>[,<int>]   ahead,$a   atail,$a   areverse,$a   ajoin,$v
   aflatten,$v   asize,$a
   afe,$a,<id|dup|cnt|c:key>   afl,$a,<t|f|ne|one|nb>   afoldl,$a,$z,<cat|rcat|l|r|cntr>   afoldr,...
+  call,$f,$k,<0|1>  ($f($k) / $f(first item of $k))   call2,$t,$k1,$k2  ($t($k1)($k2))
   apair,$a,$b,<fn2>   mfe,$m,<fn2>   deq,$a,$b          key o<tag>_<int.int...> (QName 1, duration 2, hexBinary 3, base64Binary 4)
 
 Answer: one block per step, blocks separated by `|`:
@@ -130,6 +131,8 @@ def parseOp (s : String) : Option Op :=
   | ["apair", a, b, f] => do pure (.aForEachPair (← parseVar a) (← parseVar b) (← parseFn2 f))
   | ["mfe", m, f] => do pure (.mForEachF (← parseVar m) (← parseFn2 f))
   | ["deq", a, b] => do pure (.deq (← parseVar a) (← parseVar b))
+  | ["call", f, k, fst] => do pure (.call (← parseVar f) (← parseVar k) (fst == "1"))
+  | ["call2", t, k1, k2] => do pure (.call2 (← parseVar t) (← parseVar k1) (← parseVar k2))
   | ["seq", l] => (parseList parseArg l).map .seq
   | ["mctor", l] => (parseList (fun e => match e.splitOn ":" with
       | [k, v] => do pure ((← parseKey k), (← parseVar v))
